@@ -35,7 +35,7 @@ import (
 	"strings"
 )
 
-func init() { Register("writesites", famWriteSites) }
+func init() { RegisterRaw("writesites", famWriteSites) }
 
 type wsSite struct {
 	name       string
